@@ -215,6 +215,15 @@ type Interp struct {
 	// it is read (return ok=false for the default: an opaque symbol).
 	FieldInit func(obj string, field string, t types.Type) (Val, bool)
 
+	// ConcreteSlices (opt-in, so that rules written before it keep their tables):
+	// make([]T, n) with a concrete n yields a concrete, mutable slice of n zero
+	// values (element stores through IndexAddr are seen by every holder of the
+	// slice, also inside inlined callees); append on concrete slices yields a
+	// new concrete slice (always a copy: aliasing through spare capacity is not
+	// modelled); x[:] of a pointer to an array with stored elements (the
+	// variadic argument array of append) is a concrete slice.
+	ConcreteSlices bool
+
 	// Halt can be set (e.g. from OnCall) to abandon the current run: every active
 	// Call returns at once with an empty value and Err stays nil.
 	Halt bool
@@ -222,6 +231,7 @@ type Interp struct {
 	MaxSteps int
 	MaxDepth int
 	depth    int
+	sliceSeq int
 	// heap: stores into fields of objects / cells during a run
 	heap map[string]Val
 	Err  error
@@ -529,6 +539,10 @@ func (it *Interp) instr(fr *frame, v ssa.Value) Val {
 			if i, ok := idx.IntVal(); ok && int(i) < len(base.Elems) && i >= 0 {
 				// address of a concrete element: represent as a cell symbol holding it
 				sym := fmt.Sprintf("elem:%p:%d", &base.Elems[0], i)
+				if base.Sym != "" {
+					// slice created by make/append under ConcreteSlices: own identity
+					sym = elemKey(base.Sym, int(i))
+				}
 				if _, ok := it.heap[sym]; !ok {
 					it.heap[sym] = base.Elems[i]
 				}
@@ -599,8 +613,24 @@ func (it *Interp) instr(fr *frame, v ssa.Value) Val {
 		return a
 	case *ssa.Slice:
 		base := it.eval(fr, x.X)
+		if it.ConcreteSlices {
+			if r, ok := it.sliceOfArray(fr, x, base); ok {
+				return r
+			}
+		}
 		return Sym("slice("+base.String()+")", x.Type())
 	case *ssa.MakeSlice, *ssa.MakeMap, *ssa.MakeChan:
+		if ms, ok := v.(*ssa.MakeSlice); ok && it.ConcreteSlices {
+			if n, ok := it.eval(fr, ms.Len).IntVal(); ok && n >= 0 && n <= 64 {
+				if st, ok := ms.Type().Underlying().(*types.Slice); ok {
+					el := make([]Val, n)
+					for i := range el {
+						el[i] = it.zero(st.Elem())
+					}
+					return it.newSlice(el, ms.Type())
+				}
+			}
+		}
 		return Obj(fmt.Sprintf("make:%s#%d", v.Name(), it.W.Steps), v.Type())
 	case *ssa.MakeClosure:
 		var b []Val
@@ -626,6 +656,64 @@ func (it *Interp) instr(fr *frame, v ssa.Value) Val {
 	}
 	it.fail("unsupported instruction %T in %s", v, fr.fn)
 	return Val{}
+}
+
+func elemKey(id string, i int) string { return fmt.Sprintf("elem:%s:%d", id, i) }
+
+// newSlice: a concrete slice with its own identity (ConcreteSlices).
+func (it *Interp) newSlice(elems []Val, t types.Type) Val {
+	it.sliceSeq++
+	return Val{K: KSlice, Sym: fmt.Sprintf("slice#%d.%d", it.W.Steps, it.sliceSeq), Elems: elems, T: t}
+}
+
+// CurElems returns the current elements of a concrete slice (stores through
+// element addresses included); nil for a nil slice.
+func (it *Interp) CurElems(v Val) []Val {
+	if v.K != KSlice {
+		return nil
+	}
+	out := make([]Val, len(v.Elems))
+	for i := range v.Elems {
+		k := ""
+		if v.Sym != "" {
+			k = elemKey(v.Sym, i)
+		} else {
+			k = fmt.Sprintf("elem:%p:%d", &v.Elems[0], i)
+		}
+		if hv, ok := it.heap[k]; ok {
+			out[i] = hv
+		} else {
+			out[i] = v.Elems[i]
+		}
+	}
+	return out
+}
+
+// sliceOfArray: a[:] (no bounds) of a pointer to an array of concrete length
+// whose elements were stored one by one — the argument array go/ssa builds
+// for a variadic call such as append(s, x).
+func (it *Interp) sliceOfArray(fr *frame, x *ssa.Slice, base Val) (Val, bool) {
+	if x.Low != nil || x.High != nil || x.Max != nil || base.K != KObj {
+		return Val{}, false
+	}
+	pt, ok := x.X.Type().Underlying().(*types.Pointer)
+	if !ok {
+		return Val{}, false
+	}
+	at, ok := pt.Elem().Underlying().(*types.Array)
+	if !ok || at.Len() > 64 {
+		return Val{}, false
+	}
+	el := make([]Val, at.Len())
+	for i := range el {
+		k := Obj(base.String()+"["+Int(int64(i)).String()+"]", nil)
+		if hv, ok := it.heap[k.Sym]; ok {
+			el[i] = hv
+		} else {
+			el[i] = it.zero(at.Elem())
+		}
+	}
+	return it.newSlice(el, x.Type()), true
 }
 
 func (it *Interp) fieldValue(obj, field string, t types.Type) Val {
@@ -843,10 +931,20 @@ func (it *Interp) call(fr *frame, c *ssa.Call) Val {
 			if len(args) == 1 && args[0].K == KSlice {
 				return Int(int64(len(args[0].Elems)))
 			}
+			if it.ConcreteSlices && len(args) == 1 && args[0].K == KNil && args[0].T != nil {
+				if _, ok := args[0].T.Underlying().(*types.Slice); ok {
+					return Int(0) // len / cap of the nil slice
+				}
+			}
 			if len(args) == 1 && args[0].K == KConst && args[0].C.Kind() == constant.String {
 				return Int(int64(len(constant.StringVal(args[0].C))))
 			}
 			return Sym(b.Name()+"("+args[0].String()+")", c.Type())
+		case "append":
+			if it.ConcreteSlices && len(args) == 2 && (args[0].K == KSlice || args[0].K == KNil) && (args[1].K == KSlice || args[1].K == KNil) {
+				el := append(it.CurElems(args[0]), it.CurElems(args[1])...)
+				return it.newSlice(el, c.Type())
+			}
 		}
 		return it.opaque(b.Name()+"("+joinVals(args)+")", c.Type())
 	}
